@@ -308,4 +308,18 @@ theorem oracle_error_outside_heart_beat (j : JState) (o : Nat) (h : j.cur = none
 
 example : (errorEntry { hbs := [⟨2, 1, 1⟩, ⟨3, 2, 2⟩], cap := 32, cur := none }).hbs = [⟨2, 1, 1⟩, ⟨3, 2, 2⟩] := by decide
 
+/-- **a destructed object is never put on the list**: set_heart_beat on a destructed object - by itself after
+    destruct(this_object()), by error_handler, by anybody - changes nothing, whatever the argument (the O_DESTRUCTED test
+    is the first statement: `gen_shbGuard_eq`) -/
+theorem destructed_never_enabled (w : World) (x : Nat) (n : Int) (hd : w.dead.contains x = true) :
+    setHeartBeat w x n = w := by
+  rw [setHeartBeat_eq_ref]; unfold setHeartBeatRef; rw [if_pos hd]
+
+/-- ... and the specification agrees: the object's own set_heart_beat after its destruct leaves every entry alone -/
+theorem oracle_own_set_heart_beat_of_destructed (j : JState) (s : Nat) (n : Int) (hd : j.alive s = false) (ha : opAllowed j = true) :
+    judge1 j (.zshb s n) = j := by
+  simp [judge1, ha, hd]
+
+example : (runOps { hbs := [⟨2, 1, 1⟩], cap := 32, known := [2, 0, 1] } 2 [.dest 2, .zshb 1, .zshb 5]).1.hbs = [] := by decide
+
 end NV.C11
